@@ -56,7 +56,7 @@ impl Prop for C19 {
     }
 
     fn run_case(&mut self, _idx: u64, rng: &mut Rng, ctx: &mut Ctx) {
-        let o = Opts { data: rng.coin(), func: rng.chance(1, 4), tron: false, stop: true, max_lines: 24, input: false, frac: rng.coin(), strings: rng.coin() };
+        let o = Opts { data: rng.coin(), func: rng.chance(1, 4), tron: false, stop: true, max_lines: 24, input: false, frac: rng.coin(), strings: rng.coin(), arrays: rng.coin() };
         let mut p = gen::generate(rng, o);
         p.number(if rng.chance(1, 6) { 0 } else { rng.range(1, 60) as u16 }, *rng.pick(&[2u16, 5, 10]));
         let used: Vec<u16> = p.nums.values().copied().collect();
